@@ -5,7 +5,9 @@
 //   replay <cfg> <inputs> <out.ndjson> one linear execution (chain graph, same format)
 //   random <cfg> <out.ndjson> <steps>  seeded random linear execution (N <= 10, priorities 1..9)
 // cfg (text): "N p1..pN maxnodes cap alphabet"  alphabet = letters of n(ext) s(etprio) a(dd back) f(ront) c(ondition use)
-//             r(emove+re-add) t(ick); setprio priorities are the distinct values of p1..pN (random mode: 1..9).
+//             r(emove+re-add) t(ick) v(ictim: setprio on the last message only); setprio priorities follow the alphabet
+//             (random mode: 1..9; optional 6th argument = period in selections at which the last message's priority is
+//             toggled between 8 and 9, as two clients adjusting the same message would do).
 // g_lastPollOrder cannot be reset inside a process, therefore every re-execution from the initial state runs in a
 // forked child of the (pristine) coordinator process.
 #include "vf.h"
@@ -116,6 +118,7 @@ static vector<Input> alphabet(const Cfg& c) {
   for (char k : c.alpha) {
     if (k == 'n') v.push_back({'n', 0, 0});
     else if (k == 't') v.push_back({'t', 0, 1});
+    else if (k == 'v') { for (int p : c.setPrios) v.push_back({'s', c.n, p}); }   // priority changes of one victim (the last message) only
     else for (int m = 1; m <= c.n; m++) {
       if (k == 's') { for (int p : c.setPrios) v.push_back({'s', m, p}); }
       else v.push_back({k, m, 0});
@@ -401,17 +404,22 @@ static int cmdRandom(char** argv) {
   Cfg cfg = readCfg(argv[2]);
   int steps = atoi(argv[4]);
   int pertPerMille = argv[5] ? atoi(argv[5]) : 100;
+  int togglePeriod = argv[5] && argv[6] ? atoi(argv[6]) : 0;
+  int sinceToggle = 0, togglePrio = 8;
   vf::Rng rng(vf::seedFromEnv());
   vector<Input> ins;
   string pert;
-  for (char k : cfg.alpha) if (k != 'n' && k != 't') pert += k;
+  for (char k : cfg.alpha) if (k != 'n' && k != 't' && k != 'v') pert += k;
   for (int s = 0; s < steps; s++) {
     if (!pert.empty() && rng.below(1000) < (unsigned)pertPerMille) {
       char k = pert[rng.below((unsigned)pert.size())];
       int m = 1 + (int)rng.below((unsigned)cfg.n);
       ins.push_back({k, m, k == 's' ? 1 + (int)rng.below(9) : 0});
     } else if (cfg.alpha.find('t') != string::npos && rng.below(10) == 0) ins.push_back({'t', 0, 1});
-    else ins.push_back({'n', 0, 0});
+    else {
+      ins.push_back({'n', 0, 0});
+      if (togglePeriod > 0 && ++sinceToggle >= togglePeriod) { sinceToggle = 0; togglePrio = 17 - togglePrio; ins.push_back({'s', cfg.n, togglePrio}); }
+    }
   }
   vf::Out o(argv[3]);
   chain(o, cfg, ins);
